@@ -35,6 +35,7 @@ CONSTANTS
     CacheConf,   \* FALSE is right; TRUE: a factory made from a component constructor keeps the first decoded config
     UseDefault,  \* TRUE is right; FALSE: the registered default-config func is ignored
     MaxCalls,    \* the factory is called 1..MaxCalls times (3 in the quick tier, 4 in the thorough tier)
+    HelperForwards,   \* TRUE is right; FALSE: a helper of core/register does not hand the default-config func on to the registry
     ValidateDefaults, \* TRUE is right; FALSE: a section holding only `type` is not decoded - and so the defaults are not validated
     PanicRule    \* "noerr" is right: panic iff the requested factory type has no error result; "flipped": the other way round
 
@@ -47,10 +48,14 @@ Shapes  == {"viper", "yaml"}
 Regs    == {"synth", "real"}
 Users   == {"set", "empty"}               \* the user's settings: some options | only the plugin `type`
 DVs     == {"valid", "noreq", "minbad"}   \* what the registered default config is worth under the config's validation tags
+\* HOW the constructor gets into the registry: Registry.Register, or one of the helpers of core/register (register.go) - each fixes
+\* a component interface and must hand the constructor AND the optional default-config func on to the default registry
+Helpers == {"RegisterPtr", "Provider", "Limiter", "Gun", "Aggregator", "DataSource", "DataSink"}
+Hows    == {"Register"} \cup Helpers
 
 CaseSpace == [reg : Regs, ret : Rets, cfg : Cfgs, cerr : BOOLEAN, ferr : BOOLEAN, impl : BOOLEAN, dflt : BOOLEAN,
               form : Forms, fail : Fails, failAt : 1..MaxCalls, calls : 1..MaxCalls, nested : Nesteds, shape : Shapes,
-              mutate : BOOLEAN, user : Users, dv : DVs]
+              mutate : BOOLEAN, user : Users, dv : DVs, how : Hows]
 
 \* The config struct carries validation tags (R: required, M: min=1).  The user's settings, when given, are valid; so the
 \* configuration a component would be built from is INVALID exactly when the user gives nothing and the defaults are not valid.
@@ -74,11 +79,14 @@ ValidSynth(c) ==
     /\ (InvalidConf(c) => c.fail = "none")
     \* an empty plugin list: the interesting part is that decoding and construction go through (no failure injection)
     /\ (c.nested = "list0" => c.fail = "none" /\ ~c.mutate /\ ~c.impl)
+    \* through a helper: every constructor shape x requested form x with / without default func x user settings / type only x
+    \* map shape, up to two products (failure injection, nesting and mutation are the registry's business: how = Register)
+    /\ (c.how # "Register" => c.fail = "none" /\ c.nested = "none" /\ ~c.mutate /\ ~c.impl /\ c.dv = "valid" /\ c.calls <= 2)
 
 \* the real registry: `rps` of a pool (a func() (core.Schedule, error) field) given as a list (-> composite of
 \* real `once` schedules) or as an explicit composite; schedule constructors take a struct, return core.Schedule
 ValidReal(c) ==
-    /\ c.reg = "real" /\ c.cfg = "struct" /\ ~c.cerr /\ ~c.ferr /\ ~c.impl
+    /\ c.reg = "real" /\ c.how = "Register" /\ c.cfg = "struct" /\ ~c.cerr /\ ~c.ferr /\ ~c.impl
     /\ c.fail = "none" /\ c.failAt = 1 /\ ~c.mutate
     /\ \/ /\ c.ret = "comp" /\ ~c.dflt /\ c.form = "FactoryErr" /\ c.nested \in {"one", "list", "list0"} /\ c.user = "set" /\ c.dv = "valid"
        \* sections holding only `type`, real entries: startup {type: once} (times 0 violates min=1), rps {type: const}
@@ -107,7 +115,7 @@ NoProd == [out |-> "none", perr |-> FALSE, a |-> 0, b |-> "", c |-> "", r |-> ""
 Failed(out, perr) == [NoProd EXCEPT !.out = out, !.perr = perr]
 
 \* what a product built from a freshly created, freshly decoded config sees
-HasDflt(c) == c.dflt /\ UseDefault
+HasDflt(c) == c.dflt /\ UseDefault /\ (c.how \in Helpers => HelperForwards)
 ConfB(c) == IF HasDflt(c) THEN DfltB ELSE ""
 ValA(c) == IF c.user = "set" THEN UserA ELSE IF HasDflt(c) THEN 7 ELSE 0
 ValC(c) == IF c.user = "set" THEN UserC ELSE ""
@@ -139,7 +147,7 @@ GetConf(c, st) ==
               /\ (typeonly \/ ConfValid(c))
         eats == HasNestedMaps(c) /\ c.shape = "viper" /\ ~CopyMap   \* parseConf deletes `type` from the caller's nested map
     IN <<[st EXCEPT !.nd = IF c.user = "set" THEN @ + 1 ELSE @,      \* (observed through a field the user's settings carry)
-                    !.ndflt = IF c.dflt /\ UseDefault THEN @ + 1 ELSE @,
+                    !.ndflt = IF HasDflt(c) THEN @ + 1 ELSE @,
                     !.nested_type = IF eats THEN FALSE ELSE @], ok>>
 
 \* error at a factory CALL: error result if the requested type has one, else a panic carrying the error
